@@ -376,8 +376,8 @@ Definition spec_c09 (cfg : rcfg) (ops : list rop) (l : list opobs) : list fail :
 
 (* ---------------- C19 ---------------- *)
 (* clause 1: exactly one limiter wait per emitted recovery event, taken BEFORE the event is emitted (the k-th wait of
-   an op sees k-1 emitted events); no wait for anything else, in particular none for main-consumer records *)
-Definition c19_waits (op : rop) (b a : opobs) : list fail :=
+   an op sees k-1 emitted events) and taken on the consumer's own context, never on a deadline-limited one; no wait for anything else, in particular none for main-consumer records *)
+Definition c19_waits_core (op : rop) (b a : opobs) : list fail :=
   match op with
   | RecCrash _ =>
       (* the owner died while handling a record: nothing was emitted; at most the one wait of the record it was
@@ -392,6 +392,11 @@ Definition c19_waits (op : rop) (b a : opobs) : list fail :=
          && (length (b_emits a) =? match op with MainRec _ _ => 1 | _ => n end)%nat
       then [] else [(1, [match op with MainRec _ _ => 2 | _ => 1 end])]
   end.
+
+(* detail [4]: a wait was taken on a context derived from the consumer's (negative entry): it could be abandoned by a
+   deadline, i.e. the record emitted without its token *)
+Definition c19_waits (op : rop) (b a : opobs) : list fail :=
+  if existsb (fun w => w <? 0) (b_waits a) then [(1, [4])] else c19_waits_core op b a.
 
 Definition spec_c19_logic (ops : list rop) (l : list opobs) : list fail :=
   if (length l =? length ops)%nat then dedup_fail (scan c19_waits ops obs0 l) else [(0, [])].
